@@ -67,8 +67,8 @@ Value& MemberMETHODExpression::value(Context& ctx) const
   {
     return *ret;
   }
-  else if (ret->type() == Type::COMPLEX && !ret->isNull() &&
-          ret->complex()->operator==(*val.complex()))
+  else if (ret->type() == Type::COMPLEX && ret->type().level() == 0 &&
+          !ret->isNull() && ret->complex()->operator==(*val.complex()))
   {
     /* do not allocate for a copy */
     delete ret;
